@@ -348,6 +348,11 @@ fn pick_list(t: &mut Tape, len: usize, max: usize) -> Vec<usize> {
 /// Decode a history of at most `max_ops` operations. The first results are always the
 /// two constants and a few variables so that every index is valid.
 pub fn gen_ops(t: &mut Tape, max_ops: usize) -> Vec<Op> {
+    gen_ops_with(t, max_ops, 0)
+}
+
+/// `extra_clean` adds weight to `clean` (used by the handle-dropping histories)
+pub fn gen_ops_with(t: &mut Tape, max_ops: usize, extra_clean: usize) -> Vec<Op> {
     let mut ops = vec![Op::Const(false), Op::Const(true)];
     let nv = 2 + t.choose(K - 1);
     for _ in 0..nv {
@@ -359,7 +364,7 @@ pub fn gen_ops(t: &mut Tape, max_ops: usize) -> Vec<Op> {
             break;
         }
         let len = ops.len();
-        let op = match t.choose(32) {
+        let op = match t.choose(32 + extra_clean) {
             0 => Op::Const(t.flag()),
             1 | 2 => Op::Var(t.choose(K)),
             3 | 4 => Op::Not(pick(t, len, true)),
@@ -401,7 +406,8 @@ pub fn gen_ops(t: &mut Tape, max_ops: usize) -> Vec<Op> {
             27 | 28 => Op::Model(pick(t, len, true)),
             29 => Op::Retain(["t", "f", "a"][t.choose(3)].to_string(), pick(t, len, true)),
             30 => Op::Clean(pick(t, len, true)),
-            _ => Op::Infer(pick(t, len, true), t.choose(K)),
+            31 => Op::Infer(pick(t, len, true), t.choose(K)),
+            _ => Op::Clean(pick(t, len, true)),
         };
         ops.push(op);
     }
